@@ -61,3 +61,52 @@ pub fn capture_stdio<R>(f: impl FnOnce() -> R) -> Result<(R, Captured), String> 
         Err(_) => Err(format!("panic: {}", vexplore::util::last_panic())),
     }
 }
+
+/// `write_all(prefix); lock(); write_all(suffix)` over the real stdout/stderr for every cut position
+/// of a few inputs: the locked stream must continue from the carried strip state.
+/// Returns (cases run, violations as (case, message)).
+pub fn lock_chunking_violations() -> (u64, Vec<(String, String)>) {
+    use std::io::Write as _;
+    let inputs: [&[u8]; 4] = [b"a\x1b[1;32mgreen\x1b[0m b\n", "é\x1b]0;t\x07x\n".as_bytes(), b"\x1bP1q#0\x1b\\y\n", "p\x1b[38;2;1;2;3m世\n".as_bytes()];
+    let mut bad = vec![];
+    let mut n = 0u64;
+    for input in inputs {
+        let expected = vmodel::strip::StripModel::default().expected_exact(input);
+        for cut in 0..=input.len() {
+            let (a, b) = input.split_at(cut);
+            let r = capture_stdio(|| {
+                let mut s = anstream::StripStream::new(std::io::stdout());
+                s.write_all(a).unwrap();
+                let mut l = s.lock();
+                l.write_all(b).unwrap();
+                drop(l);
+                let mut s = anstream::AutoStream::never(std::io::stderr());
+                s.write_all(a).unwrap();
+                let mut l = s.lock();
+                l.write_all(b).unwrap();
+                drop(l);
+            });
+            n += 2;
+            match r {
+                Ok((_, cap)) => {
+                    for (name, got) in [("StripStream::new(stdout()).lock()", &cap.out), ("AutoStream::never(stderr()).lock()", &cap.err)] {
+                        if *got != expected {
+                            bad.push((
+                                format!("{name} cut={cut} input={}", vexplore::util::hex(input)),
+                                format!(
+                                    "write_all({}); lock(); write_all({}) delivered {} but the one-shot result is {}",
+                                    vexplore::util::show(a),
+                                    vexplore::util::show(b),
+                                    vexplore::util::show(got),
+                                    vexplore::util::show(&expected)
+                                ),
+                            ));
+                        }
+                    }
+                }
+                Err(m) => bad.push((format!("cut={cut} input={}", vexplore::util::hex(input)), m)),
+            }
+        }
+    }
+    (n, bad)
+}
